@@ -110,6 +110,10 @@ type symQ struct {
 	tgtOK  []bool
 	regObj []int
 	regOK  []bool
+	// the shape (index into the object's shape descriptions) each long-lived CrossingEdgeQuery /
+	// ContainsPointQuery was last asked about by id; absent = none yet
+	ceqLast map[int]int
+	cpqLast map[int]int
 }
 
 func cloneInts(a []int) []int { return append([]int(nil), a...) }
@@ -118,6 +122,7 @@ func drawHistory(g *gen.G, descs []*ObjDesc, maxSteps int) []HStep {
 	t := g.T
 	syms := make([]symObj, len(descs))
 	var sq symQ
+	sq.ceqLast, sq.cpqLast = map[int]int{}, map[int]int{}
 	lastArgs := map[int][]Op{}
 	n := 1 + int(t.Uint(uint32(maxSteps)))
 	steps := make([]HStep, 0, n)
@@ -125,10 +130,15 @@ func drawHistory(g *gen.G, descs []*ObjDesc, maxSteps int) []HStep {
 	// questions of its own family, so that reuse sequences are dense enough to hit state carried
 	// from one call to the next
 	focusFam, focusID, focusObj, focusLeft := -1, -1, -1, 0
+	// forced: step kinds that must come next on forcedObj (the refill after a Reset, see HReset)
+	var forced []int
+	forcedObj := -1
 	for len(steps) < n {
 		obj := int(t.Uint(uint32(len(descs))))
 		forceFocus := false
-		if focusLeft > 0 {
+		if len(forced) > 0 {
+			obj = forcedObj
+		} else if focusLeft > 0 {
 			focusLeft--
 			if t.Chance(750) {
 				switch focusFam {
@@ -200,6 +210,10 @@ func drawHistory(g *gen.G, descs []*ObjDesc, maxSteps int) []HStep {
 				h.Kind = HCodec
 			}
 		}
+		inRefill := false
+		if len(forced) > 0 {
+			h.Kind, forced, inRefill = forced[0], forced[1:], true
+		}
 		switch h.Kind {
 		case HBuild:
 			if d.Kind == OIndex {
@@ -228,11 +242,34 @@ func drawHistory(g *gen.G, descs []*ObjDesc, maxSteps int) []HStep {
 			}
 		case HAdd:
 			h.Shape = sy.next % len(d.Shapes)
-			h.SameObj = t.Chance(650)
+			h.SameObj = t.Chance(650) || inRefill
 			sy.next++
 			sy.live = append(sy.live, h.Shape)
 			sq.invalidate(obj)
 		case HReset:
+			// Often a Reset is followed at once by a refill that brings back, as the very same
+			// object but under another id, the shape that a long-lived query on this index was
+			// asked about last, and by a Build (after which such a query may be used again and is
+			// focused on, see HBuild): state keyed by a shape or by an id shows only then.
+			last, have := -1, false
+			for i, o := range sq.ceqObj {
+				if l, ok := sq.ceqLast[i]; ok && o == obj {
+					last, have = l, true
+				}
+			}
+			for i, o := range sq.cpqObj {
+				if l, ok := sq.cpqLast[i]; ok && o == obj && (!have || t.Chance(500)) {
+					last, have = l, true
+				}
+			}
+			if have && len(d.Shapes) > 1 && t.Chance(700) {
+				m := ((last-sy.next)%len(d.Shapes)+len(d.Shapes))%len(d.Shapes) + 1
+				forced, forcedObj = nil, obj
+				for i := 0; i < m; i++ {
+					forced = append(forced, HAdd)
+				}
+				forced = append(forced, HBuild)
+			}
 			sy.live = nil
 			sq.invalidate(obj)
 		case HInvert:
@@ -360,6 +397,31 @@ func drawHistory(g *gen.G, descs []*ObjDesc, maxSteps int) []HStep {
 							q.Reuse = r
 						}
 					}
+				}
+				if q.Reuse >= 0 && (q.Kind == QCrossings || q.Kind == QShapeContains) {
+					// ask a long-lived query about the shape it was asked about last, wherever that
+					// shape lives now: after a Reset and a refill in another order the same shape
+					// object has another id (state keyed by the shape shows only then)
+					lastOf := sq.ceqLast
+					if q.Kind == QShapeContains {
+						lastOf = sq.cpqLast
+					}
+					live := syms[q.Obj].live
+					if last, ok := lastOf[q.Reuse]; ok && forceFocus && t.Chance(600) {
+						for id := len(live) - 1; id >= 0; id-- {
+							if live[id] == last {
+								q.ShapeID = id
+								break
+							}
+						}
+					}
+					if q.ShapeID < len(live) {
+						lastOf[q.Reuse] = live[q.ShapeID]
+					}
+				}
+				if live := syms[q.Obj].live; (q.Kind == QCrossings || q.Kind == QShapeContains) && q.ShapeID < len(live) && t.Chance(600) {
+					// (ids follow the order of addition, which is not the order of the descriptions)
+					aimAtShape(g, q, od.Shapes[live[q.ShapeID]])
 				}
 				if q.Kind == QFindEdges || q.Kind == QDistance || q.Kind == QIsDistLess || q.Kind == QIsConsDist {
 					// a long-lived target of the right sense (closest/furthest), when there is one
@@ -933,6 +995,8 @@ func probeHistory(rc *runCtx, steps []HStep, descs []*ObjDesc) {
 	queried := map[int]bool{}
 	inverted := map[int]int{}
 	lastEQ := map[int]int{} // reuse id -> last query kind
+	lastShape := map[[2]int][2]int{}
+	sameObjAdd, everAdded := map[[2]int]bool{}, map[[2]int]bool{}
 	for i := range steps {
 		h := &steps[i]
 		if h.Kind == HQuery {
@@ -942,6 +1006,8 @@ func probeHistory(rc *runCtx, steps []HStep, descs []*ObjDesc) {
 		case HBuild:
 			built[h.Obj] = true
 		case HAdd:
+			sameObjAdd[[2]int{h.Obj, h.Shape}] = h.SameObj && everAdded[[2]int{h.Obj, h.Shape}]
+			everAdded[[2]int{h.Obj, h.Shape}] = true
 			if built[h.Obj] {
 				rc.inc("probe_add_after_build", 1)
 			}
@@ -972,6 +1038,30 @@ func probeHistory(rc *runCtx, steps []HStep, descs []*ObjDesc) {
 					rc.inc("probe_findedges_after_"+qNames[prev], 1)
 				}
 				lastEQ[h.Q.Reuse] = h.Q.Kind
+			}
+			if h.Q.Reuse >= 0 && (h.Q.Kind == QCrossings || h.Q.Kind == QShapeContains) && h.Q.ShapeID < len(h.LiveA) {
+				key := [2]int{h.Q.Kind, h.Q.Reuse}
+				cur := [2]int{h.LiveA[h.Q.ShapeID], h.Q.ShapeID}
+				if prev, ok := lastShape[key]; ok && prev[0] == cur[0] && prev[1] != cur[1] {
+					rc.inc("probe_long_lived_query_same_shape_new_id", 1)
+					if sameObjAdd[[2]int{h.Obj, cur[0]}] {
+						rc.inc("probe_long_lived_query_same_shape_object_new_id", 1)
+						ne := 0
+						for _, l := range descs[h.Obj].Shapes[cur[0]].Loops {
+							ne += len(l)
+						}
+						if ne > 27 {
+							rc.inc("probe_long_lived_query_same_big_shape_object_new_id", 1)
+							if h.Q.Kind == QCrossings {
+								rc.inc("probe_long_lived_crossing_query_same_big_shape_object_new_id", 1)
+								if len(h.ans) > 0 {
+									rc.inc("probe_long_lived_crossing_query_same_big_shape_object_new_id_with_crossings", 1)
+								}
+							}
+						}
+					}
+				}
+				lastShape[key] = cur
 			}
 		}
 	}
